@@ -778,6 +778,20 @@ func (s *coreSnap) render(res string) string {
 		}
 		sb.WriteString(b.String())
 	}
+	return sb.String()
+}
+
+var _ = rollappkeeper.Keeper{}
+
+// c18Modules: the custom modules whose genesis C18 is about (its anchor list) plus bank.
+var c18Modules = map[string]bool{"rollapp": true, "sequencer": true, "delayedack": true, "eibc": true, "dymns": true,
+	"lightclient": true, "iro": true, "lockup": true, "incentives": true, "streamer": true, "sponsorship": true, "bank": true}
+
+// renderFull: the M-Core observation followed by the pending delayed packets (Core protocol only;
+// the C09 protocol appends its own light-client part to render).
+func (s *coreSnap) renderFull(res string) string {
+	var sb strings.Builder
+	sb.WriteString(s.render(res))
 	sb.WriteString(" | pk=")
 	for i, p := range s.Pk {
 		if i > 0 {
@@ -787,9 +801,3 @@ func (s *coreSnap) render(res string) string {
 	}
 	return sb.String()
 }
-
-var _ = rollappkeeper.Keeper{}
-
-// c18Modules: the custom modules whose genesis C18 is about (its anchor list) plus bank.
-var c18Modules = map[string]bool{"rollapp": true, "sequencer": true, "delayedack": true, "eibc": true, "dymns": true,
-	"lightclient": true, "iro": true, "lockup": true, "incentives": true, "streamer": true, "sponsorship": true, "bank": true}
